@@ -185,12 +185,52 @@ static void dump_module(FILE * f, program * prog)
         }
 }
 
+/* -B <dump>: build the program from a module dump (the format dump_module writes) instead of compiling a source: lets the
+   correspondence run hand-made instruction sequences on the real VM (single-handler differential, checks/op_corr.py) */
+static int load_module(const char * path, program * prog)
+{
+    FILE * f = fopen(path, "r");
+    module * m = prog->module_value;
+    char line[4096];
+    unsigned int n = 0, ns = 0, nx = 0;
+    if (f == NULL) return 1;
+    while (fgets(line, sizeof line, f))
+    {
+        unsigned int a, w0, w1, w2, b, h; int t;
+        if (sscanf(line, "code %u", &a) == 1) { m->code_arr = calloc(a + 1, sizeof(bytecode)); m->code_size = a; n = 0; }
+        else if (sscanf(line, "i %u %d %u %u %u", &a, &t, &w0, &w1, &w2) == 5 && m->code_arr && n < m->code_size)
+        {
+            bytecode * bc = &m->code_arr[n++];
+            unsigned int w[4] = { w0, w1, w2, 0 };
+            size_t sz = sizeof(bytecode) - ((char *)&bc->int_t - (char *)bc);
+            if (sz > 16) sz = 16;
+            bc->addr = a; bc->type = (bytecode_type)t;
+            memcpy(&bc->int_t, w, sz);
+        }
+        else if (sscanf(line, "strtab %u", &a) == 1) { m->strtab_array = calloc(a + 1, sizeof(char *)); m->strtab_size = a; ns = 0; }
+        else if (line[0] == 's' && line[1] == ' ' && m->strtab_array && ns < m->strtab_size)
+        {
+            char * p = strchr(line + 2, ' '); size_t len, k; char * out;
+            p = p ? p + 1 : line + strlen(line);
+            len = strcspn(p, "\r\n") / 2; out = calloc(len + 1, 1);
+            for (k = 0; k < len; k++) { unsigned int v = 0; sscanf(p + 2 * k, "%2x", &v); out[k] = (char)v; }
+            m->strtab_array[ns++] = out;
+        }
+        else if (sscanf(line, "exctab %u", &a) == 1) { m->exctab_value = exception_tab_new(a + 2); m->exctab_value->count = a; nx = 0; }
+        else if (sscanf(line, "x %u %u", &b, &h) == 2 && m->exctab_value && nx <= m->exctab_value->count)
+        { m->exctab_value->tab[nx].block_addr = b; m->exctab_value->tab[nx].handler_addr = h; nx++; }
+        else if (sscanf(line, "entry %u", &a) == 1) m->code_entry = a;
+    }
+    fclose(f);
+    return (m->code_arr == NULL || m->exctab_value == NULL) ? 1 : 0;
+}
+
 int main(int argc, char ** argv)
 {
-    const char * file = NULL, * src = NULL, * entry = "main", * dumpf = NULL, * tracef = NULL, * resf = NULL;
+    const char * file = NULL, * src = NULL, * entry = "main", * dumpf = NULL, * tracef = NULL, * resf = NULL, * bdump = NULL;
     unsigned int mem = DEFAULT_VM_MEM_SIZE, stack = DEFAULT_VM_STACK_SIZE; int gcmode = 0, execs = 1, c, ret, k;
     const char * pre[16]; int npre = 0; program * preprog[16]; char * calls = NULL;
-    while ((c = getopt(argc, argv, "f:e:m:s:g:n:D:T:L:R:x:P:c:")) != -1)
+    while ((c = getopt(argc, argv, "f:e:m:s:g:n:D:T:L:R:x:P:c:B:")) != -1)
     {
         switch (c)
         {
@@ -200,6 +240,7 @@ int main(int argc, char ** argv)
         case 'D': dumpf = optarg; break; case 'T': tracef = optarg; break; case 'L': maxlines = strtoull(optarg, NULL, 10); break;
         case 'R': resf = optarg; break; case 'x': execs = atoi(optarg); break;
         case 'P': if (npre < 16) pre[npre++] = optarg; break; case 'c': calls = strdup(optarg); break;
+        case 'B': bdump = optarg; break;
         default: return 2;
         }
     }
@@ -217,7 +258,7 @@ int main(int argc, char ** argv)
     program * prog = program_new();
     fn_count = 0;
     never_verif_func_hook = func_hook;
-    ret = file ? nev_compile_file(file, prog) : nev_compile_str(src ? src : "", prog);
+    ret = bdump ? load_module(bdump, prog) : file ? nev_compile_file(file, prog) : nev_compile_str(src ? src : "", prog);
     never_verif_func_hook = NULL;
     if (rf)
     {
@@ -242,7 +283,7 @@ int main(int argc, char ** argv)
             if (colon) { *colon = 0; char * q = colon + 1; while (q && *q && ac < 32) { av[ac++] = q; q = strchr(q, ','); if (q) { *q = 0; q++; } } }
         }
         else { for (a = optind; a < argc && ac < 32; a++) av[ac++] = argv[a]; }
-        ret = nev_prepare_argc_argv(prog, en, ac, av);
+        ret = bdump ? 0 : nev_prepare_argc_argv(prog, en, ac, av);
         if (rf)
         {
             unsigned int p;
@@ -297,7 +338,7 @@ int main(int argc, char ** argv)
     finish("return", ret);
     never_verif_step_hook = NULL;
     if (machine) vm_delete(machine);
-    program_delete(prog);
+    if (!bdump) program_delete(prog);
     for (k = 0; k < npre; k++) program_delete(preprog[k]);
     if (tf) fclose(tf);
     if (rf) fclose(rf);
